@@ -99,7 +99,13 @@ def subst_named_consts(body, unit, f):
                 if m:
                     consts[m.group(1)] = m.group(3).strip()
         unit.src.consts = consts
-    for k, v in consts.items():
+    # function-local `const NAME: f64 = <expr>;` declarations: substituted the same way, the declaration is dropped
+    local = {}
+    def grab(m):
+        local[m.group(1)] = m.group(3).strip()
+        return ''
+    body = re.sub(r'(?<![A-Za-z0-9_])const\s+([A-Z][A-Z0-9_]*)\s*:\s*(f64|f32)\s*=\s*([^;]+);', grab, body)
+    for k, v in list(consts.items()) + list(local.items()):
         body = re.sub(r'(?<![A-Za-z0-9_:.])%s(?![A-Za-z0-9_])' % k, '(%s)' % v, body)
     return body
 
@@ -118,9 +124,6 @@ def apply_body_rules(body, unit, c, f):
         body = rx.sub(repl, body)
     if 'panic' in body and 'vpanic' not in body.replace('vpanic', ''):
         pass
-    # R5 named constants of the crate, then constant casts in general
-    body = subst_named_consts(body, unit, f)
-    body = rewrite_casts(body, unit)
     body = re.sub(r'cast\(\s*180\.0\s*/\s*f64::consts::PI\s*\)\s*\.unwrap\(\)', 'Sc::const_180_over_pi()', body)
     body = re.sub(r'cast\(\s*f64::consts::PI\s*/\s*180\.0\s*\)\s*\.unwrap\(\)', 'Sc::const_pi_over_180()', body)
     body = re.sub(r'cast\(\s*f64::consts::PI\s*\*\s*2\.0\s*\)\s*\.unwrap\(\)', 'Sc::const_two_pi()', body)
@@ -143,6 +146,9 @@ def apply_body_rules(body, unit, c, f):
     body = re.sub(r'::approx::Ulps::default\(\)\s*\.ne\(', 'ulps_default_ne(', body)
     body = re.sub(r'::approx::AbsDiff::default\(\)\s*\.eq\(', 'abs_diff_default_eq(', body)
     body = re.sub(r'::approx::AbsDiff::default\(\)\s*\.ne\(', 'abs_diff_default_ne(', body)
+    # R5 named constants of the crate, then constant casts in general (after R13: the builder options are matched on the original text)
+    body = subst_named_consts(body, unit, f)
+    body = rewrite_casts(body, unit)
     # R6 get_unchecked
     body = re.sub(r'\*\s*([A-Za-z_][A-Za-z0-9_]*)\.get_unchecked\(([^()]*)\)', r'\1[\2]', body)
     # R12 unsafe blocks whose content is now safe
